@@ -311,6 +311,20 @@ macro_rules! kzg_family {
 
             fn keys(k: &KeyRaw, _tier: Tier) -> Result<Keys<Self>, String> {
                 let (max, supported, bounds, hiding) = uni_key_shape(k);
+                Self::keys_shaped(k, max, supported, bounds, hiding)
+            }
+            fn keys_large(k: &KeyRaw, _tier: Tier, which: u64) -> Result<Keys<Self>, String> {
+                // around and beyond 256 / 512 powers; supported degree and bounds re-drawn at that size
+                let max = IPA_LARGE[(which % IPA_LARGE.len() as u64) as usize];
+                let supported = if which & 16 == 0 { max } else { 1 + pick(k.b, max) };
+                let bounds = k.bounds.as_ref().map(|v| v.iter().map(|r| 1 + pick(*r, supported)).collect::<Vec<_>>());
+                let hiding = pick((k.hiding as u16) << 8, 7);
+                Self::keys_shaped(k, max, supported, bounds, hiding)
+            }
+            uni_common!(Fr, UniPoly);
+        }
+        impl $name {
+            fn keys_shaped(k: &KeyRaw, max: usize, supported: usize, bounds: Option<Vec<usize>>, hiding: usize) -> Result<Keys<Self>, String> {
                 let seed = k.seed as u64;
                 let pp = memo(format!("{}:{}:{}", $label, max, seed), || {
                     out_to_res(
@@ -335,7 +349,6 @@ macro_rules! kzg_family {
                 };
                 Ok(Keys { pp, ck, vk, info })
             }
-            uni_common!(Fr, UniPoly);
         }
     };
 }
